@@ -38,6 +38,9 @@ type handlerScript struct {
 	Name    string
 	Pieces  []int
 	Trailer bool
+	// Pause is how long the handler waits before it writes piece k (k >= 1): a backend that goes quiet in the
+	// middle of its response for longer than common time-outs
+	Pause time.Duration
 }
 
 func (h handlerScript) piece(k int) []byte {
@@ -346,6 +349,9 @@ func runForwarder(url string, h handlerScript, id string, gate func(k int)) (clo
 			if gate != nil {
 				gate(k)
 			}
+			if k > 0 && h.Pause > 0 {
+				time.Sleep(h.Pause)
+			}
 			if gate != nil {
 				hx.Emit("Produce", "k", k+1, "n", h.Pieces[k])
 			} else {
@@ -369,8 +375,54 @@ func runForwarder(url string, h handlerScript, id string, gate func(k int)) (clo
 	select {
 	case err := <-done:
 		return err == nil, false, err
-	case <-time.After(20 * time.Second):
+	case <-time.After(20*time.Second + time.Duration(len(h.Pieces))*h.Pause):
 		return false, true, nil
+	}
+}
+
+// pauseClasses are the quiet periods of the slow scenarios: beyond 5 s in every run, beyond 30 s and 60 s in the
+// thorough tier (the round numbers time-outs are usually set to).
+func pauseClasses() []time.Duration {
+	if hx.Thorough() {
+		return []time.Duration{5500 * time.Millisecond, 31 * time.Second, 62 * time.Second}
+	}
+	return []time.Duration{5500 * time.Millisecond}
+}
+
+// uploadSlowChild: one upload whose handler goes quiet between two pieces, with a failure after the whole body
+// and then an acknowledgement - small enough to be replayed, or too large to be retried at all.
+func uploadSlowChild() {
+	f := strings.Split(hx.Child(), "/") // <size>/<pause ms>
+	if len(f) != 2 {
+		return
+	}
+	ms, _ := strconv.Atoi(f[1])
+	h := handlerScript{Name: "quiet-" + f[0], Pieces: []int{6, 5}}
+	if f[0] == "large" {
+		h.Pieces = []int{3000, 3071}
+	}
+	hx.Reset("upload-ref-"+h.Name, "upload-ref")
+	fs := newFaultServer(nil, nil)
+	ok, blocked, _ := runForwarder(fs.url(), h, "ref-"+h.Name, nil)
+	hx.Emit("CloseDone", "ok", ok, "blocked", blocked)
+	fs.close()
+	if !ok || len(fs.acked) != 1 {
+		fmt.Println("reference run failed")
+		os.Exit(3)
+	}
+	ref := fs.acked[0]
+	h.Pause = time.Duration(ms) * time.Millisecond
+	for _, script := range [][]upStep{{{"5xx-close", "end"}, {"ack", "end"}}, {{"ack", "end"}}} {
+		var shape []string
+		for _, st := range script {
+			shape = append(shape, st.Kind+"@"+st.Pos)
+		}
+		hx.Reset(fmt.Sprintf("upload-quiet-%s-%d-%d", f[0], ms, len(script)), fmt.Sprintf("upload:[%s]:%s:quiet%dms", strings.Join(shape, ","), h.Name, ms))
+		fs := newFaultServer(script, ref)
+		ok, blocked, _ := runForwarder(fs.url(), h, fmt.Sprintf("req-quiet-%s-%d", f[0], len(script)), nil)
+		hx.Emit("CloseDone", "ok", ok, "blocked", blocked)
+		time.Sleep(5 * time.Millisecond)
+		fs.close()
 	}
 }
 
@@ -385,6 +437,10 @@ func uploadDriver(a *Args) {
 		uploadStressChild()
 		return
 	}
+	if a.Mode == "slow-child" {
+		uploadSlowChild()
+		return
+	}
 	var cases uploadCases
 	b, err := os.ReadFile(a.Cases)
 	if err != nil || json.Unmarshal(b, &cases) != nil {
@@ -392,17 +448,34 @@ func uploadDriver(a *Args) {
 		return
 	}
 	sizes := []handlerScript{
-		{"tiny", []int{10}, false},
-		{"one1", []int{1, 2000}, true},
-		{"mid", []int{1500, 1500}, false},
-		{"edgeA", []int{3950}, false},
-		{"edgeB", []int{4010}, true},
-		{"big", []int{3000, 3000, 3000}, false},
-		{"big1", []int{20000}, true},
+		{Name: "tiny", Pieces: []int{10}, Trailer: false},
+		{Name: "one1", Pieces: []int{1, 2000}, Trailer: true},
+		{Name: "mid", Pieces: []int{1500, 1500}, Trailer: false},
+		{Name: "edgeA", Pieces: []int{3950}, Trailer: false},
+		{Name: "edgeB", Pieces: []int{4010}, Trailer: true},
+		{Name: "big", Pieces: []int{3000, 3000, 3000}, Trailer: false},
+		{Name: "big1", Pieces: []int{20000}, Trailer: true},
 	}
 	if hx.Thorough() {
-		sizes = append(sizes, handlerScript{"huge", []int{300000}, false}, handlerScript{"edgeC", []int{3800, 1, 400}, true})
+		sizes = append(sizes, handlerScript{Name: "huge", Pieces: []int{300000}, Trailer: false}, handlerScript{Name: "edgeC", Pieces: []int{3800, 1, 400}, Trailer: true})
 	}
+	// uploads whose handler goes quiet for longer than common time-outs, in child processes next to everything else
+	slowDone := make(chan []hx.ChildResult, 1)
+	go func() {
+		var names []string
+		for _, d := range pauseClasses() {
+			names = append(names, fmt.Sprintf("small/%d", d.Milliseconds()), fmt.Sprintf("large/%d", d.Milliseconds()))
+		}
+		slowDone <- hx.RunChildren("upload", "slow-child", names, nil, 10*time.Minute)
+	}()
+	defer func() {
+		for _, c := range <-slowDone {
+			if c.Err != nil {
+				res.Bad("slow upload scenario %s did not run: %v: %s", c.Name, c.Err, headOf([]byte(c.Out), 600))
+			}
+			res.Case("quiet:"+c.Name, map[string]interface{}{"handler_quiet_for_ms": c.Name})
+		}
+	}()
 	rng := hx.Rand("upload")
 	// reference serialisation per handler script (fault-free run)
 	refs := map[string][]byte{}
@@ -432,7 +505,7 @@ func uploadDriver(a *Args) {
 			if b < 256 || b > 4095 {
 				continue
 			}
-			h := handlerScript{fmt.Sprintf("sweep%d", target), []int{b}, false}
+			h := handlerScript{Name: fmt.Sprintf("sweep%d", target), Pieces: []int{b}, Trailer: false}
 			hx.Reset("upload-ref-"+h.Name, "upload-ref")
 			fs := newFaultServer(nil, nil)
 			ok, blocked, _ := runForwarder(fs.url(), h, "ref-"+h.Name, nil)
@@ -560,6 +633,30 @@ func streamDriver(a *Args) {
 		streamStressChild()
 		return
 	}
+	if a.Mode == "slow-child" {
+		// one lock-step stream whose handler goes quiet between chunks for longer than common time-outs
+		ms, _ := strconv.Atoi(hx.Child())
+		c := []int{700, 1, 5000}
+		h := handlerScript{Name: fmt.Sprintf("quiet%d", ms), Pieces: c, Trailer: true, Pause: time.Duration(ms) * time.Millisecond}
+		lockStepInProcess(res, 9000, h, c, fmt.Sprintf(":quiet%dms", ms))
+		return
+	}
+	slowDone := make(chan []hx.ChildResult, 1)
+	go func() {
+		var names []string
+		for _, d := range pauseClasses() {
+			names = append(names, fmt.Sprint(d.Milliseconds()))
+		}
+		slowDone <- hx.RunChildren("stream", "slow-child", names, nil, 10*time.Minute)
+	}()
+	defer func() {
+		for _, c := range <-slowDone {
+			if c.Err != nil {
+				res.Bad("quiet stream scenario %s did not run: %v: %s", c.Name, c.Err, headOf([]byte(c.Out), 600))
+			}
+			res.Case("inproc:quiet:"+c.Name, map[string]interface{}{"mode": "in-process forwarder", "handler_quiet_between_chunks_ms": c.Name})
+		}
+	}()
 	rng := hx.Rand("stream")
 	chunkings := [][]int{{1}, {1, 1, 1}, {1, 4096, 1}, {32768, 32768, 32768, 32768, 32769}, {5, 70000, 3}}
 	n := 12
@@ -594,65 +691,11 @@ func streamDriver(a *Args) {
 	nPlain := len(chunkings)
 	chunkings = append(chunkings, []int{10, 10, 10}, []int{1024, 1024}, []int{683, 683, 683}, []int{1000, 1000, 1000}, []int{1, 4095}, []int{3000, 3000})
 	for i, c := range chunkings {
-		h := handlerScript{fmt.Sprintf("lock%d", i), c, i%2 == 0}
+		h := handlerScript{Name: fmt.Sprintf("lock%d", i), Pieces: c, Trailer: i%2 == 0}
 		if i >= nPlain {
-			h = handlerScript{fmt.Sprintf("lock%d-cl", i), c, false}
+			h = handlerScript{Name: fmt.Sprintf("lock%d-cl", i), Pieces: c, Trailer: false}
 		}
-		hx.Reset(fmt.Sprintf("stream-inproc-%d", i), fmt.Sprintf("stream-inproc:%v", sizeClasses(c)))
-		obsCh := make(chan *streamObserver, 1)
-		fp := fakes.NewFakeProxy()
-		fp.Post = func(w http.ResponseWriter, r *http.Request, id string) {
-			o := newStreamObserver(h, false)
-			obsCh <- o
-			io.Copy(o.pw, r.Body)
-			o.pw.Close()
-			<-o.done
-			hx.Emit("UpAck", "a", 1, "eq", o.err == nil, "len", 0, "detail", fmt.Sprint(o.err))
-			w.WriteHeader(200)
-		}
-		var obs *streamObserver
-		stalled := false
-		gate := func(k int) {
-			if k == 0 {
-				return
-			}
-			if obs == nil {
-				select {
-				case obs = <-obsCh:
-				case <-time.After(10 * time.Second):
-					stalled = true
-					hx.Emit("Stall", "k", k)
-					return
-				}
-			}
-			select {
-			case got := <-obs.pieceCh:
-				hx.Emit("Observe", "k", got)
-			case <-time.After(10 * time.Second):
-				stalled = true
-				hx.Emit("Stall", "k", k)
-			}
-		}
-		ok, blocked, _ := runForwarder(fp.URL(), h, fmt.Sprintf("lock-%d", i), gate)
-		// the last piece
-		if obs == nil {
-			select {
-			case obs = <-obsCh:
-			case <-time.After(5 * time.Second):
-			}
-		}
-		if obs != nil && !stalled {
-			select {
-			case got := <-obs.pieceCh:
-				hx.Emit("Observe", "k", got)
-			case <-time.After(10 * time.Second):
-				hx.Emit("Stall", "k", len(c))
-			}
-		}
-		hx.Emit("StreamDone", "n", len(c))
-		hx.Emit("CloseDone", "ok", ok, "blocked", blocked)
-		fp.Close()
-		res.Case(fmt.Sprintf("inproc:%v", sizeClasses(c)), map[string]interface{}{"mode": "in-process forwarder", "chunks": c})
+		lockStepInProcess(res, i, h, c, "")
 	}
 	// (a') many lock-step rounds on 12 streams at once, in a child process without a trace: a wake-up that
 	// is lost once in thousands of hand-overs between the handler and the serialiser shows as a stall
@@ -676,6 +719,66 @@ func streamDriver(a *Args) {
 	}
 	// (b) black box: real agent binary, ReverseProxy (100 ms flush interval), flushing backend
 	streamAgent(a, chunkings)
+}
+
+// lockStepInProcess runs one lock-step stream through the forwarder in process: chunk k+1 is produced only after
+// the proxy side has observed chunk k (and after h.Pause, if the handler goes quiet in between).
+func lockStepInProcess(res *hx.Result, i int, h handlerScript, c []int, tag string) {
+	hx.Reset(fmt.Sprintf("stream-inproc-%d%s", i, tag), fmt.Sprintf("stream-inproc:%v%s", sizeClasses(c), tag))
+	obsCh := make(chan *streamObserver, 1)
+	fp := fakes.NewFakeProxy()
+	fp.Post = func(w http.ResponseWriter, r *http.Request, id string) {
+		o := newStreamObserver(h, false)
+		obsCh <- o
+		io.Copy(o.pw, r.Body)
+		o.pw.Close()
+		<-o.done
+		hx.Emit("UpAck", "a", 1, "eq", o.err == nil, "len", 0, "detail", fmt.Sprint(o.err))
+		w.WriteHeader(200)
+	}
+	var obs *streamObserver
+	stalled := false
+	gate := func(k int) {
+		if k == 0 {
+			return
+		}
+		if obs == nil {
+			select {
+			case obs = <-obsCh:
+			case <-time.After(10 * time.Second):
+				stalled = true
+				hx.Emit("Stall", "k", k)
+				return
+			}
+		}
+		select {
+		case got := <-obs.pieceCh:
+			hx.Emit("Observe", "k", got)
+		case <-time.After(10 * time.Second):
+			stalled = true
+			hx.Emit("Stall", "k", k)
+		}
+	}
+	ok, blocked, _ := runForwarder(fp.URL(), h, fmt.Sprintf("lock-%d", i), gate)
+	// the last piece
+	if obs == nil {
+		select {
+		case obs = <-obsCh:
+		case <-time.After(5 * time.Second):
+		}
+	}
+	if obs != nil && !stalled {
+		select {
+		case got := <-obs.pieceCh:
+			hx.Emit("Observe", "k", got)
+		case <-time.After(10 * time.Second):
+			hx.Emit("Stall", "k", len(c))
+		}
+	}
+	hx.Emit("StreamDone", "n", len(c))
+	hx.Emit("CloseDone", "ok", ok, "blocked", blocked)
+	fp.Close()
+	res.Case(fmt.Sprintf("inproc:%v%s", sizeClasses(c), tag), map[string]interface{}{"mode": "in-process forwarder", "chunks": c})
 }
 
 func sizeClasses(c []int) []string {
@@ -778,7 +881,7 @@ func streamAgent(a *Args, chunkings [][]int) {
 	defer agent.Kill()
 	for i, c := range chunkings {
 		id := fmt.Sprintf("s%d", i)
-		h := handlerScript{"agentlock" + id, c, false}
+		h := handlerScript{Name: "agentlock" + id, Pieces: c, Trailer: false}
 		cu := &cur{h: h, obs: make(chan *streamObserver, 1), finished: make(chan struct{})}
 		mu.Lock()
 		active[id] = cu
@@ -813,7 +916,7 @@ func uploadStressChild() {
 		wg.Add(1)
 		go func(g int) {
 			defer wg.Done()
-			h := handlerScript{fmt.Sprintf("stress%d", g), []int{90 + 113*g}, g%2 == 0}
+			h := handlerScript{Name: fmt.Sprintf("stress%d", g), Pieces: []int{90 + 113*g}, Trailer: g%2 == 0}
 			if g%3 == 0 {
 				h.Pieces = []int{40 + 7*g, 300 + 29*g}
 			}
@@ -874,7 +977,7 @@ func streamStressChild() {
 			for k := range pieces {
 				pieces[k] = 1 + (k*7+g)%48
 			}
-			h := handlerScript{fmt.Sprintf("sstream%d", g), pieces, false}
+			h := handlerScript{Name: fmt.Sprintf("sstream%d", g), Pieces: pieces, Trailer: false}
 			obsCh := make(chan *streamObserver, 1)
 			fp := fakes.NewFakeProxy()
 			defer fp.Close()
